@@ -19,6 +19,12 @@ B3  every crossing (the B2 ones, and every Edfa crossing inside the real gnpy.to
     NonIncreasing for min/max-NF models; NonIncreasingExtended for every model; ClampAboveMax for the polynomial model;
     DbForDbBelowMin for single-stage models; DualCascade: a dual stage's linear NF = NF(preamp at its maximum flat
     gain) + NF(booster at gain - g1) / g1 with the stage amplifiers crossed alone, also where gain - g1 is negative).
+    NfFollowsModel ("Curve" / "NfCurve" events): the OpenROADM ILA polynomial and preamp mask are read at the input power
+    per 50 GHz slot (computed by the specification from total power, channel count and slot width; contiguous combs of
+    37.5 / 50 / 75 / 100 GHz slots), the advanced model's NF polynomial at the gain deficit; the configured
+    polynomial is handed to TLC as a table of the library's coefficients (legacy form, and a YANG-form library whose
+    keyed nf_coef lists are not written in coef_order); the preamp mask is closed-form in the spec and its expected
+    NF is emitted with the cases.
     Load shapes include a single in-band channel of a wider spectrum and out-of-band channels whose slot edge lies
     0.5 / 1 GHz beyond the amplifier band.
 """
@@ -48,7 +54,7 @@ def cfg_text(maxcross, emit=False, pins='MCPinTots'):
     base = base.replace('PinTots <- MCPinTots', f'PinTots <- {pins}')
     if emit:
         base = '\n'.join(ln for ln in base.splitlines() if not ln.startswith('INVARIANT')) + \
-            '\nINVARIANT Emit\nINVARIANT EmitSweepEntries\n'
+            '\nINVARIANT Emit\nINVARIANT EmitSweepEntries\nINVARIANT EmitCurveCases\n'
     return base
 
 
@@ -223,6 +229,114 @@ def synthetic_library(entries, chk):
     return raw, _equipment_from_json(copy.deepcopy(raw), DEFAULT_EXTRA_CONFIG)
 
 
+def curve_table(coefs, lo_db, hi_db, step_db=0.02):
+    """the configured polynomial (coefficients highest power first) tabulated on a uniform grid, micro-dB"""
+    n = int(round((hi_db - lo_db) / step_db)) + 1
+    x = lo_db + step_db * np.arange(n)
+    return {'x0': udb(lo_db), 'step': udb(step_db), 'v': [udb(v) for v in np.polyval(np.asarray(coefs, dtype=float), x)]}
+
+
+def openroadm_libraries(chk, rng):
+    """[(name, {type_variety: (model, coefficients highest power first or None)}, loaded equipment)]: the shipped
+    OpenROADM libraries in legacy form, and one written in YANG form (RFC 7951 JSON) whose keyed nf_coef lists are in
+    another order than coef_order (the order of a keyed list is not significant)"""
+    import tempfile
+    from gnpy.tools.json_io import load_equipments_and_configs, load_json
+    from gnpy.tools.convert_legacy_yang import legacy_to_yang
+    out = []
+
+    def entries(edfas, coef_of):
+        return {e['type_variety']: ('orIla' if e['type_def'] == 'openroadm' else 'orPreamp', coef_of(e))
+                for e in edfas if e.get('type_def') in ('openroadm', 'openroadm_preamp')}
+    legacy = [(EX, 'eqpt_config.json')] + ([(EX, 'eqpt_config_openroadm_ver4.json'), (EX, 'eqpt_config_openroadm_ver5.json')]
+                                           if chk.tier == 'thorough' else [])
+    for d, f in legacy:
+        out.append((f'{d.name}/{f}', entries(load_json(d / f)['Edfa'], lambda e: e.get('nf_coef')),
+                    load_equipments_and_configs(d / f, [], [])))
+    src = EX / 'eqpt_config_openroadm_ver5.json'
+    doc = legacy_to_yang(load_json(src))
+    root = doc if 'Edfa' in doc else doc[next(iter(doc))]
+    for e in root['Edfa']:
+        if 'nf_coef' in e:
+            lst = list(e['nf_coef'])
+            while [c['coef_order'] for c in lst] == sorted(c['coef_order'] for c in lst):
+                rng.shuffle(lst)
+            e['nf_coef'] = lst
+    tlc.BUILD.mkdir(exist_ok=True)
+    with tempfile.TemporaryDirectory(dir=tlc.BUILD) as tmp:
+        from pathlib import Path
+        yf = Path(tmp) / 'eqpt_openroadm_yang.json'
+        yf.write_text(json.dumps(doc))
+        eq = load_equipments_and_configs(yf, [], [])
+    # the document's own semantics: coefficient i of the polynomial list is the entry keyed coef_order = i
+    out.append(('yang(eqpt_config_openroadm_ver5.json), nf_coef lists not in coef_order',
+                entries(root['Edfa'], lambda e: [c['nf_coef'] for c in sorted(e['nf_coef'], key=lambda c: c['coef_order'])]
+                        if 'nf_coef' in e else None), eq))
+    return out
+
+
+def curve_traces(chk, cases):
+    """NF follows the configured model for the OpenROADM amplifiers: every emitted case (slot width, channel count,
+    per-channel power) is realised with a contiguous comb through a real Edfa of every OpenROADM ILA / preamp entry;
+    the ILA polynomial is handed to TLC as a table of the library's coefficients, the input power per 50 GHz slot is
+    computed by the specification"""
+    from gnpy.tools.json_io import network_from_json
+    from gnpy.core.info import create_arbitrary_spectral_information
+    rng = random.Random(chk.seed + 4)
+    if chk.tier == 'quick':
+        cases = [c for c in cases if c['nch'] == 8]
+    traces = []
+    worst = 0
+    n = 0
+    for lname, ents, eq in openroadm_libraries(chk, rng):
+        for tv, (model, coefs) in sorted(ents.items()):
+            tab = curve_table(coefs, -50.0, 12.0) if model == 'orIla' else {'x0': 0, 'step': 1, 'v': [0, 0]}
+            evs = [{'k': 'Curve', 'tab': tab}]
+            lib = eq['Edfa'][tv]
+            for cs in sorted((c for c in cases if c['model'] == model), key=lambda c: (c['slotMHz'], c['nch'], c['pch'])):
+                chk.case(f"curve|{lname}|{tv}|{cs['slotMHz']}|{cs['nch']}|{cs['pch']}", nontrivial=cs['slotMHz'] != 50000)
+                slot = cs['slotMHz'] * 1e6
+                f = 193.0e12 + slot * np.arange(cs['nch'])
+                pch = 1e-3 * 10 ** (cs['pch'] / 1e7)
+                gain = 12.0
+                topo = {'elements': [{'uid': 'a', 'type': 'Edfa', 'type_variety': tv,
+                                      'operational': {'gain_target': gain, 'tilt_target': 0, 'out_voa': 0}}], 'connections': []}
+                try:
+                    el = next(iter(network_from_json(topo, eq).nodes()))
+                    si = create_arbitrary_spectral_information(frequency=f, pch=pch, baud_rate=0.8 * slot, slot_width=slot,
+                                                               tx_osnr=40, tx_power=pch, roll_off=0.1)
+                    with Recording() as rec:
+                        el(si)
+                except Exception as ex:                                  # noqa
+                    chk.violation(f'curve|{model}|exception|{type(ex).__name__}',
+                                  dict(library=lname, entry=tv, case=cs, exception=traceback.format_exc()[-1200:]))
+                    continue
+                if abs(el.effective_gain - gain) > 1e-9:
+                    raise Machinery(f'curve case of {tv}: gain clamped')
+                rip = np.atleast_1d(np.asarray(lib.nf_ripple, dtype=float))
+                nf_obs = float(np.mean(np.asarray(el.nf) - np.interp(f, np.linspace(lib.f_min, lib.f_max, len(rip)), rip)))
+                pre = rec.events[-1]['pre']
+                e = {'k': 'NfCurve', 'model': model, 'eff': udb(gain), 'gainMin': udb(lib.gain_min),
+                     'flatMax': udb(lib.gain_flatmax), 'pinTot': udb(L.dbm(np.sum(pre['pch'])) - float(el.in_voa or 0)),
+                     'nchDb': cs['nchDb'], 'slotRatioDb': cs['slotRatioDb'], 'nfObs': udb(nf_obs)}
+                evs.append(e)
+                n += 1
+                if model == 'orPreamp':
+                    d = abs(e['nfObs'] - cs['nfPreamp'])
+                    if d > 3:
+                        chk.violation(f'B2|openroadm_preamp|NF mask|slot {"=" if cs["slotMHz"] == 50000 else "!="} 50 GHz',
+                                      dict(library=lname, entry=tv, case=cs, code_nf_udb=e['nfObs']))
+                    else:
+                        worst = max(worst, d)
+                        chk.traces += 1
+            traces.append({'name': f'curve {lname} {tv}', 'ev': evs})
+    chk.cov['curve_crossings'] = n
+    chk.cov['curve_amplifier_entries'] = len(traces)
+    chk.cov['curve_preamp_worst_deviation_udb'] = worst
+    chk.cov['curve_tolerance_udb'] = {'preamp mask (closed form)': 3, 'tabulated polynomial': 30}
+    return traces
+
+
 def sweep_traces(chk, synthetic):
     """NF over increasing gain for every single-stage amplifier entry of every shipped library and for the synthetic
     entries TLC enumerated (real Edfa objects, low power so that the gain is never clamped); judged by TLC"""
@@ -302,6 +416,16 @@ def sweep_traces(chk, synthetic):
                   'nfMin': udb(ent.get('nf_min', 0)) if is_mm else 0, 'nfMax': udb(ent.get('nf_max', 0)) if is_mm else 0,
                   'pts': pts}
             traces.append({'name': f'sweep {fname} {tv}', 'ev': [ev]})
+            if tdef == 'advanced_model':
+                # NF follows the configured polynomial: the coefficients as written in the advanced configuration file
+                cfg_file = ent.get('advanced_config_from_json')
+                cpath = next((x / cfg_file for x in ((path.parent,) if path else ()) + (EX, TD) if (x / cfg_file).exists()), None)
+                if cpath is not None:
+                    coefs = json.loads(cpath.read_text())['nf_fit_coeff']
+                    tab = curve_table(coefs, gmin - gmax - 6.0, 0.2)
+                    traces.append({'name': f'curve {fname} {tv}', 'ev': [{'k': 'Curve', 'tab': tab}] + [
+                        {'k': 'NfCurve', 'model': 'poly', 'eff': pt['g'], 'gainMin': udb(gmin), 'flatMax': udb(gmax),
+                         'pinTot': 0, 'nchDb': 0, 'slotRatioDb': 0, 'nfObs': pt['nf']} for pt in pts]})
             entries += 1
             minmax += is_mm
             chk.case(f'sweep|{fname}|{tv}', nontrivial=True)
@@ -376,7 +500,9 @@ def report(chk, traces, verdicts, origin):
             if origin == 'B2trace' and clause in ('EffLaw', 'PadLaw', 'GainLaw', 'FlatProfile', 'NeverAbovePmax'):
                 continue            # B2: these are compared with the values TLC emitted for the history (replay_history)
             e = t['ev'][step - 1]
-            if e['k'] == 'Sweep':
+            if e['k'] == 'NfCurve':
+                sig = f'{origin}|{e["model"]}|{clause}|{t["name"].split(" ")[1][:4]}'
+            elif e['k'] == 'Sweep':
                 sig = f'{origin}|{e["typeDef"]}|{clause}'
             else:
                 sig = f'{origin}|{e["typeDef"]}|{clause}'
@@ -437,7 +563,9 @@ def run(chk):
     # ---- NF sweeps
     sw = sweep_traces(chk, [x for x in r2.emitted if 'nfMin' in x])
     report(chk, sw, L.judge(chk, sw, 'c04-sweep'), 'sweep')
-    lap('sweeps')
+    cv = curve_traces(chk, [x for x in r2.emitted if 'nfPreamp' in x])
+    report(chk, cv, L.judge(chk, cv, 'c04-curve'), 'curve')
+    lap('sweeps_and_curves')
     # ---- B3
     rng = random.Random(chk.seed)
     traces = shipped_edfa_traces(chk, rng)
@@ -458,8 +586,11 @@ def run(chk):
                'channel by NfRipple (configured ripple table interpolated at the channel frequency by the harness), by the sweep '
                'laws for min/max-NF (variable_gain) entries, by NonIncreasingExtended (at and above gain_flatmax NF never rises '
                'with gain) for every model, ClampAboveMax for the polynomial model and DbForDbBelowMin for single-stage entries; '
-               'the shape of polynomial / OpenROADM NF curves below gain_flatmax is numeric and not decided by the integer '
-               'specification (the shipped polynomial is not monotone there: +6 mdB between 24.75 and 25 dB)')
+               'NfFollowsModel: configured polynomials (OpenROADM ILA OSNR, advanced-model NF) are tabulated by the harness on a '
+               '0.02 dB grid from the coefficients as written in the library document and interpolated by the specification '
+               '(<= 2 udB), the argument (input power per 50 GHz slot / gain deficit) is computed by the specification; '
+               'OpenROADM cases use contiguous combs (channel spacing = slot width), since the code takes the spacing of the '
+               'first two channels as the slot width')
     chk.assume('dual-stage amplifiers: padding is not judged (the code defines none); amplifiers are crossed with >= 2 '
                'channels (one-channel spectra are covered by C07)')
     chk.assume('a channel whose edge lies within 1 MHz of the amplifier band edge is left unjudged by OutOfBand')
@@ -533,7 +664,14 @@ def _mut_nf_poly_unclamped():
     L.mutate_source(E.Edfa, '_nf', 'dg = max(gain_flatmax - gain_target, 0)', 'dg = gain_flatmax - gain_target')
 
 
+def _mut_openroadm_power_not_per_50ghz():
+    """OpenROADM masks read at the plain per-channel power (no normalisation to a 50 GHz slot)"""
+    import gnpy.core.elements as E
+    L.mutate_source(E.Edfa, '_nf', ' + lin2db(50e9 / self.slot_width)', '')
+
+
 MUTANTS = {'clamp_per_channel': _mut_clamp_per_channel, 'ase_at_output': _mut_ase_at_output,
            'padding_lost': _mut_padding_lost, 'wrong_mean_under_tilt': _mut_wrong_mean_under_tilt,
            'nf_not_monotone': _mut_nf_not_monotone, 'out_voa_ignored': _mut_out_voa_ignored,
-           'ripple_cached': _mut_ripple_cached, 'nf_poly_unclamped': _mut_nf_poly_unclamped}
+           'ripple_cached': _mut_ripple_cached, 'nf_poly_unclamped': _mut_nf_poly_unclamped,
+           'openroadm_power_not_per_50ghz': _mut_openroadm_power_not_per_50ghz}
